@@ -334,11 +334,11 @@ PROPS["C01"] = dict(
               "SqlVerif.Props.C01.reparse_fixpoint_sub", "SqlVerif.Props.C01.reparse_fixpoint_partial",
               "SqlVerif.Props.C01.reparse_fixpoint_partial'", "SqlVerif.Props.C01.print_idempotent_partial",
               "SqlVerif.Props.C01.showToks_norm", "SqlVerif.Props.C01.sexp_norm",
-              "SqlVerif.Props.C01.unary_minus_minus_not_lexsafe", "SqlVerif.Props.C01.ilike_any_escape_glued"],
+              "SqlVerif.Props.C01.unary_minus_minus_lexsafe", "SqlVerif.Props.C01.ilike_any_escape_spaced"],
     corr=["exprprint", "chains"],
     unique_output={"exprprint": False, "chains": False},
     oracle=["C01"],
-    level_text="Partial. Proved in Lean on the executable models of the Pratt expression parser and of Display for the same expression fragment (identifiers in every quoting style, compound identifiers, numbers, '..' and \"..\" strings, placeholders, TRUE/FALSE/NULL, parentheses, NOT / unary sign / PostgreSQL prefix operators, every regular binary operator incl. MySQL DIV and custom operators, ANY/ALL/SOME, the IS family, IS [NOT] DISTINCT FROM, [NOT] IN (list), [NOT] BETWEEN, [NOT] LIKE/ILIKE/SIMILAR TO/RLIKE/REGEXP with ESCAPE, AT TIME ZONE, ::type, postfix !), for EVERY configuration record, fuel, recursion limit and token list: (norm_invariant) on two token lists with the same observable image - of a word only its keyword and the leading-underscore flag, == and = one operator - the parser takes the same branches, consumes equally many tokens and builds trees with the same image (simultaneous fuel induction over the mutual block, one lemma per head function); (printer_emits_normal_forms) every token the parser stored in a tree is, token by token, the token the printer emits for it up to keyword spelling (second fuel induction); hence (reparse_fixpoint_partial) if parse_expr accepts the whole token list and returns a printable tree e, parse_expr on the printed token list, with the SAME fuel and limit, returns e with its tokens in printed normal form, a tree whose S-expression - what the real AST holds - is that of e; (print_idempotent_partial) the tree read back prints to the same tokens and the same text. Normal forms mirrored from the code: == prints =, keywords and type names print in table spelling, TRUE/FALSE in lower case, an ESCAPE operand prints as '..' without escaping, unary + - ~ @ |/ ||/ !! are glued to their operand. The theorem is at TOKEN level; that the printed TEXT lexes back to the printed tokens is false for some trees of the fragment on the current code, with two kernel-checked witnesses through the tokenizer model: - - a prints --a (a comment), and a ILIKE ANY b ESCAPE '!' prints ANYb (Display for ILike omits the blank). Ties: stream exprprint (real parse_expr(tokens).to_string() vs model text, byte for byte, on every atom form x prefix operators x parentheses, every operator spelling, all ordered operator pairs, random nested expressions, 13 dialects; and real tokenizer on the printed text vs model printed tokens wherever the real round trip holds, the other lines being counted per root node as lex-unsafe) and stream chains (parser). The whole grammar (every statement kind, text level, 13 dialects x 4 option sets) is decided by the round-trip oracle on the real code: parse(print a) == [a], print idempotent, joined script.",
+    level_text="Partial. Proved in Lean on the executable models of the Pratt expression parser and of Display for the same expression fragment (identifiers in every quoting style, compound identifiers, numbers, '..' and \"..\" strings, placeholders, TRUE/FALSE/NULL, parentheses, NOT / unary sign / PostgreSQL prefix operators, every regular binary operator incl. MySQL DIV and custom operators, ANY/ALL/SOME, the IS family, IS [NOT] DISTINCT FROM, [NOT] IN (list), [NOT] BETWEEN, [NOT] LIKE/ILIKE/SIMILAR TO/RLIKE/REGEXP with ESCAPE, AT TIME ZONE, ::type, postfix !), for EVERY configuration record, fuel, recursion limit and token list: (norm_invariant) on two token lists with the same observable image - of a word only its keyword and the leading-underscore flag, == and = one operator - the parser takes the same branches, consumes equally many tokens and builds trees with the same image (simultaneous fuel induction over the mutual block, one lemma per head function); (printer_emits_normal_forms) every token the parser stored in a tree is, token by token, the token the printer emits for it up to keyword spelling (second fuel induction); hence (reparse_fixpoint_partial) if parse_expr accepts the whole token list and returns a printable tree e, parse_expr on the printed token list, with the SAME fuel and limit, returns e with its tokens in printed normal form, a tree whose S-expression - what the real AST holds - is that of e; (print_idempotent_partial) the tree read back prints to the same tokens and the same text. Normal forms mirrored from the code: == prints =, keywords and type names print in table spelling, TRUE/FALSE in lower case, an ESCAPE operand prints as '..' without escaping, unary + - ~ @ |/ ||/ !! are glued to their operand. The theorem is at TOKEN level; that the printed TEXT lexes back to the printed tokens is decided by the exprprint stream and the oracle; two former counterexamples (`- - a` printed `--a`, a comment; `a ILIKE ANY b ESCAPE '!'` printed `ANYb`) were repaired in /repo with fix: commits and are kept as positive kernel-checked witnesses through the tokenizer model. Ties: stream exprprint (real parse_expr(tokens).to_string() vs model text, byte for byte, on every atom form x prefix operators x parentheses, every operator spelling, all ordered operator pairs, random nested expressions, 13 dialects; and real tokenizer on the printed text vs model printed tokens wherever the real round trip holds, the other lines being counted per root node as lex-unsafe) and stream chains (parser). The whole grammar (every statement kind, text level, 13 dialects x 4 option sets) is decided by the round-trip oracle on the real code: parse(print a) == [a], print idempotent, joined script.",
     level_note="Trusted: Lean kernel (axioms propext, Classical.choice, Quot.sound); the hand-written parser and printer models (validated by the differentials on generated inputs only); Gen tables as dumped from the running crate. printable excludes four shapes whose printed token list is not a token-by-token image of the input (REGEXP RLIKE prints one operator, an ESCAPE operand written as a bare word or \"..\" prints as '..', :\"x\" loses its quotes, keyword tokens spelled with a leading underscore, which no lexer produces); they re-parse to the same S-expression (checked by evaluation in the theorem file and by the streams) but are outside the theorem. Not a theorem: LexSafe (text -> tokens) for the fragment - found failing by stream exprprint (lex-unsafe counts) and by the oracle; queries, statements, data types beyond the bare keyword (C18), functions, CASE/CAST, subqueries: oracle only. FullStatement is kept as a definition.",
     technique="Lean 4 proofs (parser respects a token equivalence: simultaneous fuel induction with per-head-function lemmas; printer emits the stored tokens up to that equivalence; uniqueness of a tree given its image and its yield) + kernel-decided text-level counterexamples through the tokenizer model + Display differential (text and printed tokens) + whole-grammar round-trip oracle",
     trusted_base=EXPRPRINT_TB,
